@@ -15,7 +15,7 @@ open Shroud.Lines
 /-- **force wins.**  A declaration-level splicer (`force`) is the body whatever
     the splicer files / `splicer_code` and the default say. -/
 theorem create_force (s : Stack) (name : Str) (dflt : Option (List Item)) (f : List Item) :
-    selectBody s name dflt (some f) = .ok (f, true) := by
+    selectBody s name dflt (some f) = .ok (f.map protectItem, true) := by
   simp [selectBody]
 
 /-- **user beats default.**  Without `force`, a body the user supplied for this
@@ -24,7 +24,7 @@ theorem create_force (s : Stack) (name : Str) (dflt : Option (List Item)) (f : L
 theorem create_user (s : Stack) (name : Str) (dflt : Option (List Item)) (b : List Str)
     (htop : objAt s.d s.names = some .dict)
     (hu : s.d.lookup (s.names ++ [name]) = some (.leaf b)) :
-    selectBody s name dflt none = .ok (b.map Item.str, true) := by
+    selectBody s name dflt none = .ok (b.map (fun l => Item.str (protect l)), true) := by
   simp [selectBody, htop, hu]
 
 /-- **default retention.**  A block the user did not supply keeps the generated
@@ -118,18 +118,21 @@ example :
 
 /-! ## (2) carriage through `write_lines` -/
 
-/-- Lines `write_lines` passes through untouched.  Exactly what the code forces:
-    no embedded newline; either a `#` line (written verbatim in column one) or a
-    line that does not start with `@ ^ + -` or CR, does not end in `+`, and
-    holds no TAB / FF.  The empty line is clean (written as an empty line). -/
+/-- Lines that are carried untouched.  Exactly what the code still forces after
+    user lines are protected (`protect`): no embedded newline; either a `#` line
+    (written verbatim in column one) or a line that does not start with CR and
+    holds no TAB / FF.  Lines starting with `@ ^ + -` or ending in `+` are clean
+    (before the `fix:` commit they were not).  The empty line is clean. -/
 def Clean (l : Str) : Bool :=
   match l with
   | [] => true
   | c :: _ =>
     l.all (fun x => x != '\n') &&
-    (c == '#' ||
-      (c != '@' && c != '^' && c != '+' && c != '-' && c != CR
-        && l.getLast? != some '+' && l.all (fun x => x != TAB && x != FF)))
+    (c == '#' || (c != CR && l.all (fun x => x != TAB && x != FF)))
+
+/-- Lines `write_lines` passes through without any protection (marker lines and
+    generated text are appended raw): clean and not in need of `protect`. -/
+def Plain (l : Str) : Bool := Clean l && decide (protect l = l)
 
 /-- What is written for a clean line at indentation depth `i`. -/
 def emitLine (spaces : Str) (i : Int) (l : Str) : Str :=
@@ -140,32 +143,59 @@ def emitLine (spaces : Str) (i : Int) (l : Str) : Str :=
 /-- "equal up to leading indentation and trailing blanks" -/
 def core (l : Str) : Str := rstrip (lstrip l)
 
+private theorem wc_single (linelen : Nat) (spaces cont : Str) (i : Int) (c : Char) (cs : Str)
+    (hcr : c ≠ CR) (hnh : ∀ x ∈ c :: cs, x ≠ TAB ∧ x ≠ FF) :
+    render cont (wcBodies { linelen, indent := i, spaces } (c :: cs)) = [nspaces spaces i ++ c :: cs] := by
+  have hcrs : crSplit (c :: cs) = (1, c :: cs) := by simp [crSplit, hcr]
+  simp only [wcBodies, hcrs, splitParts_noHint (c :: cs) [] hnh]
+  simp [flush, fill, render]
+
 theorem carriage_line (linelen : Nat) (spaces cont : Str) (i : Int) (l : Str) (h : Clean l = true) :
-    subline linelen spaces cont i l = .ok ⟨[emitLine spaces i l], i⟩ := by
+    subline linelen spaces cont i (protect l) = .ok ⟨[emitLine spaces i l], i⟩ := by
   cases l with
-  | nil => simp [subline, emitLine]
+  | nil => simp [subline, emitLine, protect]
   | cons c cs =>
     by_cases hc : c = '#'
-    · subst hc; simp [subline, emitLine]
+    · subst hc; simp [subline, emitLine, protect]
     · simp only [Clean, List.all_eq_true, Bool.and_eq_true, Bool.or_eq_true, beq_iff_eq, hc, false_or,
         bne_iff_ne, ne_eq] at h
-      obtain ⟨_, ⟨⟨⟨⟨⟨⟨h2, h3⟩, h4⟩, h5⟩, h6⟩, h7⟩, h8⟩⟩ := h
-      rw [wl_plain_line linelen spaces cont i c cs hc h2 h3 h4 h5 h7]
+      obtain ⟨_, h6, h8⟩ := h
       have hnh : ∀ x ∈ c :: cs, x ≠ TAB ∧ x ≠ FF := by
         intro x hx
         have := h8 x hx
         simpa using this
-      have hcr : crSplit (c :: cs) = (1, c :: cs) := by simp [crSplit, h6]
-      simp only [wcBodies, hcr, splitParts_noHint (c :: cs) [] hnh, emitLine, hc, if_false]
-      simp [flush, fill, render]
+      have hw := wc_single linelen spaces cont i c cs h6 hnh
+      by_cases hp : c = '@' ∨ c = '^' ∨ c = '+' ∨ c = '-' ∨ (c :: cs).getLast? = some '+'
+      · have : protect (c :: cs) = '@' :: c :: cs := by simp [protect, hc, hp]
+        rw [this, wl_literal_line, hw]
+        simp [emitLine, hc]
+      · have : protect (c :: cs) = c :: cs := by simp [protect, hp]
+        simp only [not_or] at hp
+        obtain ⟨p1, p2, p3, p4, p5⟩ := hp
+        rw [this, wl_plain_line linelen spaces cont i c cs hc p1 p2 p3 p4 p5, hw]
+        simp [emitLine, hc]
 
-/-- **carriage.**  A body of clean lines comes out of `write_lines` complete, in
-    order, one physical line per body line, each being its indentation followed
-    by the line itself (no character altered), and the indentation state is
-    unchanged -- for every line length, also lines longer than `linelen`. -/
+theorem protect_noNL (l : Str) (h : ∀ c ∈ l, c ≠ '\n') : ∀ c ∈ protect l, c ≠ '\n' := by
+  cases l with
+  | nil => simp [protect]
+  | cons a as =>
+    simp only [protect]
+    split
+    · intro c hc
+      simp only [List.mem_cons] at hc
+      rcases hc with rfl | hc
+      · decide
+      · exact h c (by simpa using hc)
+    · exact h
+
+/-- **carriage.**  A body of clean lines, protected as `_create_splicer` does,
+    comes out of `write_lines` complete, in order, one physical line per body
+    line, each being its indentation followed by the line itself (no character
+    altered, also a leading `@ ^ + -` and a trailing `+`), and the indentation
+    state is unchanged -- for every line length. -/
 theorem carriage (linelen : Nat) (spaces cont : Str) (body : List Str) (i : Int)
     (h : ∀ l ∈ body, Clean l = true) :
-    writeLines linelen spaces cont i (body.map Item.str)
+    writeLines linelen spaces cont i (body.map (fun l => Item.str (protect l)))
       = .ok ⟨body.map (emitLine spaces i), i⟩ := by
   induction body with
   | nil => simp [writeLines]
@@ -177,8 +207,8 @@ theorem carriage (linelen : Nat) (spaces cont : Str) (body : List Str) (i : Int)
       | cons c cs =>
         simp only [Clean, Bool.and_eq_true, List.all_eq_true, bne_iff_ne, ne_eq] at hl
         exact hl.1
-    simp only [List.map_cons, writeLines, splitNL_noNL l [] hnl, List.nil_append, sublines,
-      carriage_line linelen spaces cont i l hl, ih (fun x hx => h x (by simp [hx]))]
+    simp only [List.map_cons, writeLines, splitNL_noNL (protect l) [] (protect_noNL l hnl), List.nil_append,
+      sublines, carriage_line linelen spaces cont i l hl, ih (fun x hx => h x (by simp [hx]))]
     simp
 
 /-- Each emitted line equals the user's line up to leading indentation and
@@ -198,6 +228,22 @@ theorem emitLine_core (spaces : Str) (i : Int) (l : Str) (hsp : ∀ c ∈ spaces
       obtain ⟨x, ⟨_, rfl⟩, hx⟩ := ha
       exact hsp a hx
 
+private theorem block_lines (linelen : Nat) (spaces cont : Str) (i : Int) (m m' : Str) (body : List Str)
+    (hbody : ∀ l ∈ body, Clean l = true) (hb : Plain m = true) (he : Plain m' = true) :
+    writeLines linelen spaces cont i
+        (Item.str m :: body.map (fun l => Item.str (protect l)) ++ [Item.str m'])
+      = .ok ⟨emitLine spaces i m :: body.map (emitLine spaces i) ++ [emitLine spaces i m'], i⟩ := by
+  simp only [Plain, Bool.and_eq_true, decide_eq_true_eq] at hb he
+  have hall : ∀ l ∈ m :: body ++ [m'], Clean l = true := by
+    intro l hl
+    simp only [List.cons_append, List.mem_cons, List.mem_append, List.not_mem_nil, or_false] at hl
+    rcases hl with rfl | hl | rfl
+    · exact hb.1
+    · exact hbody l hl
+    · exact he.1
+  have := carriage linelen spaces cont _ i hall
+  simpa [hb.2, he.2] using this
+
 /-- **block carriage** (`_create_splicer` + `write_lines`): with marker comments
     on, a user-supplied clean body appears between the two marker lines,
     complete and in order, each line indented and otherwise unchanged, replacing
@@ -207,92 +253,84 @@ theorem block_carriage (linelen : Nat) (spaces cont comment : Str) (i : Int) (s 
     (htop : objAt s.d s.names = some .dict)
     (hu : s.d.lookup (s.names ++ [name]) = some (.leaf body))
     (hbody : ∀ l ∈ body, Clean l = true)
-    (hb : Clean (beginMarker comment s.names name) = true)
-    (he : Clean (endMarker comment s.names name) = true) :
+    (hb : Plain (beginMarker comment s.names name) = true)
+    (he : Plain (endMarker comment s.names name) = true) :
     ∃ out, createSplicer true comment s name dflt none = .ok (out, true) ∧
       writeLines linelen spaces cont i out
         = .ok ⟨emitLine spaces i (beginMarker comment s.names name)
                 :: body.map (emitLine spaces i)
                 ++ [emitLine spaces i (endMarker comment s.names name)], i⟩ := by
   have hsel := create_user s name dflt body htop hu
-  refine ⟨_, (create_markers comment s name dflt none _ _ hsel).1, ?_⟩
-  have hall : ∀ l ∈ beginMarker comment s.names name :: body ++ [endMarker comment s.names name],
-      Clean l = true := by
-    intro l hl
-    simp only [List.cons_append, List.mem_cons, List.mem_append, List.not_mem_nil,
-      or_false] at hl
-    rcases hl with rfl | hl | rfl
-    · exact hb
-    · exact hbody l hl
-    · exact he
-  have := carriage linelen spaces cont _ i hall
-  simpa using this
+  exact ⟨_, (create_markers comment s name dflt none _ _ hsel).1,
+    block_lines linelen spaces cont i _ _ body hbody hb he⟩
 
-/-- Same for a `force` body and for a retained default made of clean strings. -/
+/-- Same for a declaration-level (`force`) body. -/
 theorem block_carriage_force (linelen : Nat) (spaces cont comment : Str) (i : Int) (s : Stack) (name : Str)
     (dflt : Option (List Item)) (body : List Str)
     (hbody : ∀ l ∈ body, Clean l = true)
-    (hb : Clean (beginMarker comment s.names name) = true)
-    (he : Clean (endMarker comment s.names name) = true) :
+    (hb : Plain (beginMarker comment s.names name) = true)
+    (he : Plain (endMarker comment s.names name) = true) :
     ∃ out, createSplicer true comment s name dflt (some (body.map Item.str)) = .ok (out, true) ∧
       writeLines linelen spaces cont i out
         = .ok ⟨emitLine spaces i (beginMarker comment s.names name)
                 :: body.map (emitLine spaces i)
                 ++ [emitLine spaces i (endMarker comment s.names name)], i⟩ := by
   refine ⟨_, (create_markers comment s name dflt _ _ _ (create_force s name dflt _)).1, ?_⟩
-  have hall : ∀ l ∈ beginMarker comment s.names name :: body ++ [endMarker comment s.names name],
-      Clean l = true := by
-    intro l hl
-    simp only [List.cons_append, List.mem_cons, List.mem_append, List.not_mem_nil,
-      or_false] at hl
-    rcases hl with rfl | hl | rfl
-    · exact hb
-    · exact hbody l hl
-    · exact he
-  have := carriage linelen spaces cont _ i hall
-  simpa using this
+  have := block_lines linelen spaces cont i _ _ body hbody hb he
+  have hm : List.map (protectItem ∘ Item.str) body = List.map (fun l => Item.str (protect l)) body :=
+    List.map_congr_left (fun _ _ => rfl)
+  simpa [hm] using this
 
-/-! ### the unrestricted statement is false: one witness per excluded class
+/-! ### what `protect` is for, and what remains excluded
 
-`carriage_line` without `Clean` fails; what the code writes instead
-(`linelen` 72, four-space unit, depth 1).  The first three are defects of the
-documented mechanism (known findings); `@ ^ + -` in column one are the
-documented `write_lines` directives. -/
+`write_lines` itself (depth 1, `linelen` 72, four-space unit) reads a trailing
+`+` and a leading `@ ^ + -` as directives; protected user lines are carried.
+TAB, FF, a leading CR and an embedded newline are still interpreted: one
+witness per remaining excluded class (TAB and FF are open known findings). -/
 
 private def sp4 : Str := "    ".toList
 private def amp : Str := "&".toList
 
-/-- a user line ending in `+` loses it, and every following line is indented one level deeper -/
+/-- raw, a line ending in `+` loses it and indents what follows; protected it is carried -/
 theorem witness_trailing_plus :
-    Clean "i = i +".toList = false ∧
-    subline 72 sp4 amp 1 "i = i +".toList = .ok ⟨["    i = i ".toList], 2⟩ := by decide
+    subline 72 sp4 amp 1 "i = i +".toList = .ok ⟨["    i = i ".toList], 2⟩ ∧
+    Clean "i = i +".toList = true ∧
+    subline 72 sp4 amp 1 (protect "i = i +".toList) = .ok ⟨["    i = i +".toList], 1⟩ := by decide
 
-/-- an interior TAB is consumed -/
+/-- raw column-one directives, and the same lines protected -/
+theorem witness_column_one :
+    subline 72 sp4 amp 1 "@x".toList = .ok ⟨["    x".toList], 1⟩ ∧
+    subline 72 sp4 amp 1 "^x".toList = .ok ⟨["x".toList], 1⟩ ∧
+    subline 72 sp4 amp 1 "+x".toList = .ok ⟨["        x".toList], 2⟩ ∧
+    subline 72 sp4 amp 1 "-x".toList = .ok ⟨["x".toList], 0⟩ ∧
+    subline 72 sp4 amp 1 (protect "@x".toList) = .ok ⟨["    @x".toList], 1⟩ ∧
+    subline 72 sp4 amp 1 (protect "^x".toList) = .ok ⟨["    ^x".toList], 1⟩ ∧
+    subline 72 sp4 amp 1 (protect "+x".toList) = .ok ⟨["    +x".toList], 1⟩ ∧
+    subline 72 sp4 amp 1 (protect "-x".toList) = .ok ⟨["    -x".toList], 1⟩ := by decide
+
+/-- an interior TAB is consumed, also in a protected line -/
 theorem witness_tab :
     Clean "a\tb".toList = false ∧
-    subline 72 sp4 amp 1 "a\tb".toList = .ok ⟨["    ab".toList], 1⟩ := by decide
+    subline 72 sp4 amp 1 (protect "a\tb".toList) = .ok ⟨["    ab".toList], 1⟩ := by decide
 
 /-- an interior FF is consumed and forces a continuation line -/
 theorem witness_ff :
     Clean ['a', FF, 'b'] = false ∧
-    subline 72 sp4 amp 1 ['a', FF, 'b'] = .ok ⟨["    a&".toList, "        b".toList], 1⟩ := by decide
+    subline 72 sp4 amp 1 (protect ['a', FF, 'b']) = .ok ⟨["    a&".toList, "        b".toList], 1⟩ := by decide
 
-theorem witness_column_one :
-    Clean "@x".toList = false ∧ subline 72 sp4 amp 1 "@x".toList = .ok ⟨["    x".toList], 1⟩ ∧
-    Clean "^x".toList = false ∧ subline 72 sp4 amp 1 "^x".toList = .ok ⟨["x".toList], 1⟩ ∧
-    Clean "+x".toList = false ∧ subline 72 sp4 amp 1 "+x".toList = .ok ⟨["        x".toList], 2⟩ ∧
-    Clean "-x".toList = false ∧ subline 72 sp4 amp 1 "-x".toList = .ok ⟨["x".toList], 0⟩ ∧
-    Clean [CR, 'x'] = false ∧ subline 72 sp4 amp 1 [CR, 'x'] = .ok ⟨["    x".toList], 1⟩ := by decide
+/-- a leading CR is consumed (it doubles the continuation indent) -/
+theorem witness_cr :
+    Clean [CR, 'x'] = false ∧ subline 72 sp4 amp 1 (protect [CR, 'x']) = .ok ⟨["    x".toList], 1⟩ := by decide
 
 theorem witness_newline :
     Clean "a\nb".toList = false ∧
-    writeLines 72 sp4 amp 1 [.str "a\nb".toList] = .ok ⟨["    a".toList, "    b".toList], 1⟩ := by decide
+    writeLines 72 sp4 amp 1 [.str (protect "a\nb".toList)] = .ok ⟨["    a".toList, "    b".toList], 1⟩ := by decide
 
 /-- hence the statement of `carriage_line` for *all* lines is false -/
 theorem carriage_unrestricted_false :
-    ¬ ∀ l : Str, subline 72 sp4 amp 1 l = .ok ⟨[emitLine sp4 1 l], 1⟩ := by
+    ¬ ∀ l : Str, subline 72 sp4 amp 1 (protect l) = .ok ⟨[emitLine sp4 1 l], 1⟩ := by
   intro h
-  have := h "i = i +".toList
+  have := h "a\tb".toList
   revert this
   decide
 
@@ -513,23 +551,18 @@ theorem readback_line (spaces : Str) (i : Int) (l : Str)
           subst ha
           simp only [Clean, List.all_eq_true, Bool.and_eq_true, Bool.or_eq_true, beq_iff_eq, hc, false_or,
             bne_iff_ne, ne_eq] at hclean
-          obtain ⟨g1, ⟨⟨⟨⟨⟨⟨_, _⟩, _⟩, _⟩, _⟩, g7⟩, g8⟩⟩ := hclean
+          obtain ⟨g1, _, g8⟩ := hclean
           have hT : (' ' : Char) ≠ TAB := by decide
           have hF : (' ' : Char) ≠ FF := by decide
           simp only [List.cons_append, Clean, List.all_eq_true, Bool.and_eq_true, Bool.or_eq_true, beq_iff_eq,
             bne_iff_ne, ne_eq]
-          refine ⟨?_, Or.inr ⟨⟨⟨⟨⟨⟨by decide, by decide⟩, by decide⟩, by decide⟩, by decide⟩, ?_⟩, ?_⟩⟩
+          refine ⟨?_, Or.inr ⟨by decide, ?_⟩⟩
           · intro x hx
             simp only [List.mem_cons, List.mem_append] at hx
             rcases hx with rfl | hx | hx
             · decide
             · rw [has x hx]; decide
             · exact g1 x (by simpa using hx)
-          · have : (' ' :: (as ++ c :: cs)).getLast? = (c :: cs).getLast? := by
-              rw [show ' ' :: (as ++ c :: cs) = (' ' :: as) ++ (c :: cs) by simp, List.getLast?_append,
-                List.getLast?_eq_some_getLast (l := c :: cs) (by simp)]
-              rfl
-            rw [this]; exact g7
           · intro x hx
             simp only [List.mem_cons, List.mem_append] at hx
             rcases hx with rfl | hx | hx
@@ -851,8 +884,9 @@ theorem insertBlock_fresh (d d2 : Dict) (tag : Str) (save : List Str)
 
 example : Clean "return SH_this->getName().length();".toList = true := by decide
 example : Clean "#define FOO 1 +".toList = true := by decide
-example : Clean (beginMarker "//".toList ["function".toList] "foo".toList) = true := by decide
-example : Clean (endMarker "!".toList [] "module_top".toList) = true := by decide
+example : Clean "-x +".toList = true ∧ Clean "@^".toList = true := by decide
+example : Plain (beginMarker "//".toList ["function".toList] "foo".toList) = true := by decide
+example : Plain (endMarker "!".toList [] "module_top".toList) = true := by decide
 
 example : createSplicer true "//".toList ⟨[(["function".toList], .dict),
       (["function".toList, "foo".toList], .leaf ["return 1;".toList])], ["function".toList]⟩
